@@ -36,15 +36,6 @@ pub assume_specification<T: Clone> [<[T]>::clone_from_slice] (dst: &mut [T], src
     requires old(dst)@.len() == src@.len(),
     ensures final(dst)@ == src@;
 pub assume_specification<Idx: Clone> [<Range<Idx> as Clone>::clone] (r: &Range<Idx>) -> (c: Range<Idx>) ensures c == *r;
-#[derive(Debug, Clone, Copy, PartialEq, Eq, Structural)]
-pub struct StatusCode { pub bits: u32 }
-impl StatusCode {
-    pub const BadUnexpectedError: StatusCode = StatusCode { bits: 0x8001_0000 };
-    pub const BadSecurityPolicyRejected: StatusCode = StatusCode { bits: 0x8055_0000 };
-    pub const BadSecurityChecksFailed: StatusCode = StatusCode { bits: 0x8013_0000 };
-    pub const BadNoValidCertificates: StatusCode = StatusCode { bits: 0x8059_0000 };
-    pub const BadCertificateInvalid: StatusCode = StatusCode { bits: 0x8012_0000 };
-}
 pub const SHA1_SIZE: usize = 20;
 pub const SHA256_SIZE: usize = 32;
 pub struct DecodingOptions { pub x: u8 }
@@ -337,6 +328,7 @@ def build_variant(manifest, variant, pid):
     a.add('use vstd::prelude::*;\nverus! {\nglobal size_of usize == 8;\n', 'prelude', 'env')
     a.add(norm_vis(types), 'types', 'env')
     a.add(norm_vis(thumb) + '\npub const THUMBPRINT_SIZE: usize = 20;\n', 'types_thumb', 'env')
+    a.add(status_code_struct(manifest), 'status codes', 'env')      # every status code of the real file (D14)
     a.add(ENV, 'env', 'env')
     a.add(ENV_FNS, 'env2', 'env')
     a.add('impl Thumbprint {')
